@@ -8,12 +8,19 @@
         [t |-> "str",   s |-> <<code points>>]
         [t |-> "bool",  b |-> BOOLEAN]          [t |-> "none"]
         [t |-> "tuple", v |-> <<values>>]       [t |-> "list", v |-> <<values>>]
+        [t |-> "struct", k |-> <<field names>>, v |-> <<values>>]   (fields in creation order)
+        [t |-> "dict", k |-> <<keys>>, v |-> <<values>>]  [t |-> "set", v |-> <<values>>]  (insertion order)
+        [t |-> "range", v |-> <<the integers it yields>>]
 
    Eq        mathematical equality: numbers by exact value across int/float; strings, tuples,
-             lists structurally; values of different kinds are unequal (True # 1, (1,) # [1]).
-   Cmp3      -1 / 0 / 1, or 2 = "these two are not ordered" (different kinds, None).
+             lists structurally; structs, dicts and sets regardless of the order in which their
+             fields / entries were given; ranges by the sequence they yield; values of different
+             kinds are unequal (True # 1, (1,) # [1], range(2) # [0, 1]).
+   Cmp3      -1 / 0 / 1, or 2 = "these two are not ordered" (different kinds, None, dicts, sets,
+             ranges), or 3 = "not specified" (two structs: the implementation orders them, the
+             language definition does not say how; nothing is expected of <, only of ==).
              Sequences compare lexicographically.
-   Hashable  lists are not; a tuple is iff all its elements are.
+   Hashable  lists, dicts, sets and ranges are not; a tuple or struct is iff all its elements are.
    HashClass the canonical NAME of the Eq-class (a string): the abstract hash -- two values with
              the same HashClass must be interchangeable as dict keys, however they were built.
 
@@ -27,19 +34,29 @@ BoolV(bb) == [t |-> "bool", b |-> bb]
 NoneV     == [t |-> "none"]
 TupV(vs)  == [t |-> "tuple", v |-> vs]
 ListV(vs) == [t |-> "list", v |-> vs]
+StructV(ks, vs) == [t |-> "struct", k |-> ks, v |-> vs]
+DictV(ks, vs) == [t |-> "dict", k |-> ks, v |-> vs]
+SetV(vs) == [t |-> "set", v |-> vs]
+RangeV(vs) == [t |-> "range", v |-> vs]
 
 Kind(x) == IF x.t \in {"int", "float"} THEN "num" ELSE x.t
 
 RECURSIVE Eq(_, _)
 RECURSIVE SeqEq(_, _, _)
 SeqEq(xs, ys, ix) == IF ix > Len(xs) THEN TRUE ELSE Eq(xs[ix], ys[ix]) /\ SeqEq(xs, ys, ix + 1)
+(* every entry of (ks, vs) has an equal key with an equal value in (ls, ws) *)
+EntriesIn(ks, vs, ls, ws, keyEq(_, _)) ==
+    \A ix \in 1..Len(ks) : \E jx \in 1..Len(ls) : keyEq(ks[ix], ls[jx]) /\ Eq(vs[ix], ws[jx])
 Eq(x, y) ==
     IF Kind(x) # Kind(y) THEN FALSE
     ELSE CASE Kind(x) = "num"   -> NumEq(x, y)
            [] Kind(x) = "str"   -> x.s = y.s
            [] Kind(x) = "bool"  -> x.b = y.b
            [] Kind(x) = "none"  -> TRUE
-           [] Kind(x) \in {"tuple", "list"} -> (Len(x.v) = Len(y.v) /\ SeqEq(x.v, y.v, 1))
+           [] Kind(x) \in {"tuple", "list", "range"} -> (Len(x.v) = Len(y.v) /\ SeqEq(x.v, y.v, 1))
+           [] Kind(x) = "struct" -> (Len(x.k) = Len(y.k) /\ EntriesIn(x.k, x.v, y.k, y.v, LAMBDA aa, bb : aa = bb))
+           [] Kind(x) = "dict"   -> (Len(x.k) = Len(y.k) /\ EntriesIn(x.k, x.v, y.k, y.v, Eq))
+           [] Kind(x) = "set"    -> (Len(x.v) = Len(y.v) /\ \A ix \in 1..Len(x.v) : \E jx \in 1..Len(y.v) : Eq(x.v[ix], y.v[jx]))
 
 NatCmp(aa, bb) == IF aa < bb THEN -1 ELSE IF aa > bb THEN 1 ELSE 0
 RECURSIVE CodesCmp(_, _, _)
@@ -59,16 +76,23 @@ Cmp3(x, y) ==
            [] Kind(x) = "bool"  -> NatCmp(IF x.b THEN 1 ELSE 0, IF y.b THEN 1 ELSE 0)
            [] Kind(x) = "none"  -> 2
            [] Kind(x) \in {"tuple", "list"} -> SeqCmp(x.v, y.v, 1)
+           [] Kind(x) = "struct" -> 3
+           [] Kind(x) \in {"dict", "set", "range"} -> 2
 
 RECURSIVE Hashable(_)
-Hashable(x) == CASE x.t = "list"  -> FALSE
-                 [] x.t = "tuple" -> (\A ix \in 1..Len(x.v) : Hashable(x.v[ix]))
+Hashable(x) == CASE x.t \in {"list", "dict", "set", "range"} -> FALSE
+                 [] x.t \in {"tuple", "struct"} -> (\A ix \in 1..Len(x.v) : Hashable(x.v[ix]))
                  [] OTHER -> TRUE
 
 RECURSIVE JoinCodes(_, _)
 JoinCodes(cs, ix) == IF ix > Len(cs) THEN "" ELSE ToString(cs[ix]) \o "." \o JoinCodes(cs, ix + 1)
+FieldOrder == <<"a", "b", "c">>
+CanonFields(x) == SelectSeq(FieldOrder, LAMBDA nm : \E ix \in 1..Len(x.k) : x.k[ix] = nm)
 RECURSIVE HashClass(_)
 RECURSIVE JoinHC(_, _)
+RECURSIVE CanonText(_, _, _)
+CanonText(x, fs, ix) == IF ix > Len(fs) THEN ""
+                        ELSE fs[ix] \o "=" \o HashClass(x.v[CHOOSE jx \in 1..Len(x.k) : x.k[jx] = fs[ix]]) \o ";" \o CanonText(x, fs, ix + 1)
 JoinHC(vs, ix) == IF ix > Len(vs) THEN "" ELSE HashClass(vs[ix]) \o "," \o JoinHC(vs, ix + 1)
 HashClass(x) == CASE Kind(x) = "num"  -> NumHashClass(x)
                   [] x.t = "str"   -> ("s:" \o JoinCodes(x.s, 1))
@@ -76,10 +100,13 @@ HashClass(x) == CASE Kind(x) = "num"  -> NumHashClass(x)
                   [] x.t = "none"  -> "none"
                   [] x.t = "tuple" -> ("t(" \o JoinHC(x.v, 1) \o ")")
                   [] x.t = "list"  -> ("l(" \o JoinHC(x.v, 1) \o ")")      \* not hashable; named for completeness
+                  [] x.t = "struct" -> ("st(" \o CanonText(x, CanonFields(x), 1) \o ")")   \* fields in the order of FieldOrder
+                  [] x.t \in {"dict", "set", "range"} -> ("u:" \o x.t)      \* not hashable
 
 RECURSIVE WellFormedV(_)
 WellFormedV(x) == IF Kind(x) = "num" THEN WellFormed(x)
-                  ELSE IF x.t \in {"tuple", "list"} THEN \A ix \in 1..Len(x.v) : WellFormedV(x.v[ix])
+                  ELSE IF x.t \in {"tuple", "list", "struct", "set", "range"} THEN \A ix \in 1..Len(x.v) : WellFormedV(x.v[ix])
+                  ELSE IF x.t = "dict" THEN \A ix \in 1..Len(x.v) : WellFormedV(x.v[ix]) /\ WellFormedV(x.k[ix])
                   ELSE TRUE
 
 (* how the implementation REPRESENTS the value -- used only to classify disagreements *)
@@ -154,6 +181,32 @@ ListEnt(es) ==
           Rep("conv", "list((" \o Items(es, 1) \o "))"),
           Rep("compr", "[x for x in (" \o Items(es, 1) \o ")]")>>)
 
+(* structs / dicts / sets: the same abstract value written with its fields / entries in different
+   orders and through ** / constructor calls.  perms: sequences of index sequences. *)
+RECURSIVE FieldText(_, _, _, _)
+FieldText(ks, es, perm, ix) ==
+    IF ix > Len(perm) THEN "" ELSE ks[perm[ix]] \o " = " \o es[perm[ix]].reps[1].src \o ", " \o FieldText(ks, es, perm, ix + 1)
+RECURSIVE EntryText(_, _, _, _)
+EntryText(kes, es, perm, ix) ==
+    IF ix > Len(perm) THEN "" ELSE kes[perm[ix]].reps[1].src \o ": " \o es[perm[ix]].reps[1].src \o ", " \o EntryText(kes, es, perm, ix + 1)
+RECURSIVE KwText(_, _, _, _)
+KwText(ks, es, perm, ix) ==
+    IF ix > Len(perm) THEN "" ELSE Q \o ks[perm[ix]] \o Q \o ": " \o es[perm[ix]].reps[1].src \o ", " \o KwText(ks, es, perm, ix + 1)
+RECURSIVE ItemsPerm(_, _, _)
+ItemsPerm(es, perm, ix) == IF ix > Len(perm) THEN "" ELSE es[perm[ix]].reps[1].src \o ", " \o ItemsPerm(es, perm, ix + 1)
+StructEnt(ks, es, perms) ==
+    Ent(StructV(ks, ValsOf(es)),
+        [px \in 1..Len(perms) |-> Rep("kw" \o ToString(px), "struct(" \o FieldText(ks, es, perms[px], 1) \o ")")] \o
+        [px \in 1..Len(perms) |-> Rep("star" \o ToString(px), "struct(**{" \o KwText(ks, es, perms[px], 1) \o "})")])
+DictEnt(kes, es, perms) ==
+    Ent(DictV(ValsOf(kes), ValsOf(es)),
+        [px \in 1..Len(perms) |-> Rep("lit" \o ToString(px), "{" \o EntryText(kes, es, perms[px], 1) \o "}")] \o
+        <<Rep("conv", "dict({" \o EntryText(kes, es, perms[1], 1) \o "})")>>)
+SetEnt(es, perms) ==
+    Ent(SetV(ValsOf(es)),
+        [px \in 1..Len(perms) |-> Rep("conv" \o ToString(px), "set([" \o ItemsPerm(es, perms[px], 1) \o "])")] \o
+        <<Rep("dup", "set([" \o ItemsPerm(es, perms[1], 1) \o ItemsPerm(es, perms[1], 1) \o "])")>>)
+
 --------------------------------------------------------------------------------
 (* the universe *)
 P2(kk)        == Pow2(kk)
@@ -219,7 +272,31 @@ Tups == <<TupEnt(<<>>), T1, TupEnt(<<F1>>), TupEnt(<<I1, I2>>), TupEnt(<<I1, F2>
 Lists == <<ListEnt(<<>>), L1, ListEnt(<<F1>>), ListEnt(<<I1, I2>>), ListEnt(<<I1, I1>>), ListEnt(<<SA>>),
            ListEnt(<<I53p>>), ListEnt(<<F53>>)>>
 
-U  == Ints \o Floats \o Strs \o Others \o Tups \o Lists
+P1  == <<<<1>>>>
+P2x == <<<<1, 2>>, <<2, 1>>>>
+P3x == <<<<1, 2, 3>>, <<3, 1, 2>>, <<2, 3, 1>>, <<3, 2, 1>>>>
+SAB  == StructEnt(<<"a", "b">>, <<I1, I2>>, P2x)
+SABf == StructEnt(<<"a", "b">>, <<F1, I2>>, P2x)            \* equal to SAB: 1 == 1.0
+SBA  == StructEnt(<<"a", "b">>, <<I2, I1>>, P2x)            \* a = 2, b = 1: a different value
+Structs == <<StructEnt(<<>>, <<>>, <<<<>>>>), StructEnt(<<"a">>, <<I1>>, P1), StructEnt(<<"b">>, <<I1>>, P1),
+             SAB, SABf, SBA,
+             StructEnt(<<"a", "b", "c">>, <<I1, SA, T1>>, P3x),
+             StructEnt(<<"a", "b">>, <<L1, I2>>, P2x),                                       \* not hashable
+             StructEnt(<<"a", "c">>, <<SAB, I0>>, P2x),                                      \* nested
+             Ent(TupV(<<SAB.v>>), <<Rep("t1", "(" \o SAB.reps[1].src \o ",)"), Rep("t2", "(" \o SAB.reps[2].src \o ",)"),
+                                   Rep("t3", "(" \o SABf.reps[2].src \o ",)")>>),
+             Ent(StructV(<<"a">>, <<SAB.v>>), <<Rep("n1", "struct(a = " \o SAB.reps[1].src \o ")"),
+                                                Rep("n2", "struct(a = " \o SAB.reps[2].src \o ")"),
+                                                Rep("n3", "struct(a = " \o SAB.reps[4].src \o ")")>>)>>
+Unhash == <<DictEnt(<<>>, <<>>, <<<<>>>>), DictEnt(<<I1, SA>>, <<I2, I1>>, P2x), DictEnt(<<F1, SA>>, <<I2, F1>>, P2x),
+            DictEnt(<<I1, SA>>, <<I1, I2>>, P2x), DictEnt(<<I1, I2, SA>>, <<I1, I1, I1>>, P3x),
+            SetEnt(<<>>, <<<<>>>>), SetEnt(<<I1, I2>>, P2x), SetEnt(<<F1, I2>>, P2x), SetEnt(<<I1, I2, SA>>, P3x), SetEnt(<<I1>>, P1),
+            Ent(RangeV(<<>>), <<Rep("r0", "range(0)"), Rep("rneg", "range(5, 1)"), Rep("rstep", "range(0, -3, 2)")>>),
+            Ent(RangeV(<<I0.v, I1.v, I2.v>>), <<Rep("r1", "range(3)"), Rep("r3", "range(0, 3, 1)"), Rep("rslice", "range(10)[0:3]")>>),
+            Ent(RangeV(<<I0.v, I2.v>>), <<Rep("r3", "range(0, 3, 2)"), Rep("r4", "range(0, 4, 2)"), Rep("rslice", "range(5)[0:4:2]")>>),
+            ListEnt(<<I0, I1, I2>>)>>
+
+U  == Ints \o Floats \o Strs \o Others \o Tups \o Lists \o Structs \o Unhash
 NU == Len(U)
 NNum == Len(Ints) + Len(Floats)                 \* the numbers are U[1..NNum]
 
